@@ -208,16 +208,16 @@ static void randomScenario(uint64_t seed, int nops, int scenario, unsigned kinds
 #endif
 	} else if (scenario == 2) {				// lanes: same operations and decisions over different memory fills, plus copies
 		g_rec.s("{\"e\":\"mark\",\"k\":\"lanes\"}\n");		// lane 2 (and its copies) never get a logger: their non-log trace must still be identical
-		const int lanes = 3;
+		const int lanes = 4;		// 0: zero fill; 1: 0xFF fill; 2: zero fill, never a logger; 3: random fill
 		Op c; c.op = "ctor"; c.b = rng.below(1000); c.p = rng.below(2);
 		const long withLogger = c.p;
 		for (int l = 0; l < lanes; ++l) {
-			c.a = l == 0 ? 0 : l == 1 ? 1 : 4;
+			c.a = l == 0 ? 0 : l == 1 ? 1 : l == 2 ? 0 : 4;
 			c.p = l == 2 ? 0 : withLogger;
 			if (l == 0) { g_prov.recorded.clear(); runOn(0, c, PM_RANDOM); }
 			else { g_prov.replay = g_prov.recorded; runOn(l, c, PM_REPLAY); }
 		}
-		bool nolog[MAX_INST] = { false, false, true, false, false, false };
+		bool nolog[MAX_INST] = { false, false, true, false, false, false };	// lane 2 differs from lane 0 ONLY in having no logger
 		int live = lanes;
 		const int copyAt = nops > 4 ? 2 + rng.below(nops - 3) : -1;
 		const int copyAt2 = nops > 8 ? 2 + rng.below(nops - 3) : -1;
